@@ -5,6 +5,7 @@ package harness
 // determines heartbeat mode and payload format.
 
 import (
+	"bytes"
 	"encoding/json"
 	"fmt"
 	"net/http"
@@ -27,8 +28,11 @@ type c06Cfg struct {
 	AllowUpgrades             *bool
 	AllowEIO3                 bool
 	Initial                   string // none | text | binary
-	InitialData               []byte
-	Cookie                    bool
+	// InitialAs: how the application hands the packet to SetInitialPacket (the option takes any io.Reader):
+	// "" the library's own buffer types, "std": a strings.Reader (text) / bytes.Buffer (binary) of the standard library
+	InitialAs   string
+	InitialData []byte
+	Cookie      bool
 }
 
 func (c c06Cfg) String() string {
@@ -93,6 +97,9 @@ func genC06Cfg(rt *rapid.T) c06Cfg {
 	} else if c.Initial == "binary" {
 		c.InitialData = rapid.SliceOfN(rapid.Byte(), 0, 40).Draw(rt, "initialBin")
 	}
+	if c.Initial != "none" && rapid.IntRange(0, 2).Draw(rt, "initialAsStdReader") == 0 {
+		c.InitialAs = "std"
+	}
 	c.Cookie = rapid.Bool().Draw(rt, "cookie")
 	return c
 }
@@ -109,9 +116,17 @@ func (c c06Cfg) options() *config.ServerOptions {
 	o.SetAllowEIO3(c.AllowEIO3)
 	switch c.Initial {
 	case "text":
-		o.SetInitialPacket(types.NewStringBuffer(append([]byte(nil), c.InitialData...)))
+		if c.InitialAs == "std" {
+			o.SetInitialPacket(strings.NewReader(string(c.InitialData)))
+		} else {
+			o.SetInitialPacket(types.NewStringBuffer(append([]byte(nil), c.InitialData...)))
+		}
 	case "binary":
-		o.SetInitialPacket(types.NewBytesBuffer(append([]byte(nil), c.InitialData...)))
+		if c.InitialAs == "std" {
+			o.SetInitialPacket(bytes.NewBuffer(append([]byte(nil), c.InitialData...)))
+		} else {
+			o.SetInitialPacket(types.NewBytesBuffer(append([]byte(nil), c.InitialData...)))
+		}
 	}
 	if c.Cookie {
 		o.SetCookie(&httpCookieIO)
@@ -364,6 +379,9 @@ func TestC06Handshake(t *testing.T) {
 					classes["initial-packet"] = true
 					if admittedCount > 1 {
 						classes["initial-packet-second-session"] = true
+						if cfg.InitialAs == "std" {
+							classes["initial-packet-given-as-a-standard-library-reader-second-session"] = true
+						}
 					}
 					want := Pkt{Type: tMessage, Data: cfg.InitialData, Binary: cfg.Initial == "binary"}
 					if len(recv) < 2 || !recv[1].Equal(want) {
@@ -485,7 +503,7 @@ func TestC06Handshake(t *testing.T) {
 	})
 	req := []string{"carrier.polling", "carrier.jsonp", "carrier.websocket", "carrier.webtransport", "rev3", "rev4", "refused", "upgrades-nonempty", "second-session", "initial-packet", "v4-server-ping-seen", "v3-pong-seen"}
 	if !knownInit {
-		req = append(req, "initial-packet-second-session")
+		req = append(req, "initial-packet-second-session", "initial-packet-given-as-a-standard-library-reader-second-session")
 	}
 	col.RequireClasses(t, req...)
 }
